@@ -128,9 +128,11 @@ def unc_mode(unc):
     return "zero"
 
 
-def cvals(p):
+def cvals(p, placeholder=False):
     if p["vt"] == "float":
         return [walk.cfloat(v) for v in p["vals"]]
+    if placeholder and p["vt"] == "int":
+        return [walk.cval(v if v < 2 ** 63 else v - 2 ** 64) for v in p["vals"]]
     return [walk.cval(v) for v in p["vals"]]
 
 
@@ -138,13 +140,27 @@ def arr_np(a):
     return np.array(a["data"], dtype=np.dtype(a["dt"]))
 
 
-def expect_model(recipe):
+def mask_store(normed, recipe):
+    """element type and values of old properties kept in another integer width: the never-downgraded file is no
+    reference for them (the recipe model is)"""
+    secs = section_nodes(normed)
+    for spath, s in iter_sections(recipe):
+        for p in s.get("props", []):
+            if p.get("store") and p["store"] != "<i8":
+                props = secs.get("/".join(spath), {}).get("props")
+                if isinstance(props, dict) and p["name"] in props:
+                    props[p["name"]]["data_type"] = None
+                    props[p["name"]]["values"] = None
+    return normed
+
+
+def expect_model(recipe, placeholder=False):
     """the recipe as the projection ``project()`` extracts from a walk"""
     secs = {}
     for path, s in iter_sections(recipe):
         secs["/".join(path)] = {
             "type": s["type"], "definition": s.get("def"),
-            "props": {p["name"]: {"values": cvals(p), "unit": p.get("raw_unit", p.get("unit")), "definition": p.get("def")}
+            "props": {p["name"]: {"values": cvals(p, placeholder), "unit": p.get("raw_unit", p.get("unit")), "definition": p.get("def")}
                       for p in s.get("props", [])}}
     arrays = {}
     for b in recipe.get("blocks", []):
@@ -254,6 +270,8 @@ def build(path, recipe):
             for p in s.get("props", []):
                 if p["vals"]:
                     vals = [float(v) for v in p["vals"]] if p["vt"] == "float" else list(p["vals"])
+                    if p["vt"] == "int":
+                        vals = [v if v < 2 ** 63 else v - 2 ** 64 for v in vals]   # placeholder, see store_range()
                     prop = sec.create_property(p["name"], vals)
                 else:
                     prop = sec.create_property(p["name"], empty_dt[p["vt"]])
@@ -308,7 +326,19 @@ def sec_h5path(path):
     return "/metadata/" + "/sections/".join(path)
 
 
-def old_dtype(vt):
+STORE_INT = {"<i8": (-2 ** 63, 2 ** 63 - 1), "<i4": (-2 ** 31, 2 ** 31 - 1), "<i2": (-2 ** 15, 2 ** 15 - 1),
+             "<i1": (-128, 127), "<u1": (0, 255), "<u2": (0, 2 ** 16 - 1), "<u4": (0, 2 ** 32 - 1), "<u8": (0, 2 ** 64 - 1)}
+
+
+def store_range(p):
+    """value range of the element type an OLD file holds the values in (other writers used every integer width)"""
+    return STORE_INT.get(p.get("store") or "<i8")
+
+
+def old_dtype(vt, store=None):
+    if vt == "int" and store:
+        return np.dtype([("value", np.dtype(store)), ("uncertainty", "<f8"), ("reference", STR),
+                         ("filename", STR), ("encoder", STR), ("checksum", STR)])
     return np.dtype([("value", VT_NP[vt]), ("uncertainty", "<f8"), ("reference", STR),
                      ("filename", STR), ("encoder", STR), ("checksum", STR)])
 
@@ -345,7 +375,7 @@ def downgrade(path, recipe, down):
             del grp[p["name"]]
             n = len(p["vals"])
             ex = prop_extras(p)
-            dt = old_dtype(p["vt"])
+            dt = old_dtype(p["vt"], p.get("store"))
             new = grp.create_dataset(p["name"], shape=(n,), maxshape=(None,), chunks=True, dtype=dt)
             if n:
                 vals = [float(v) for v in p["vals"]] if p["vt"] == "float" else p["vals"]
@@ -601,7 +631,7 @@ class FileCase:
         build(self.cur, self.recipe)
         apply_raw_units(self.cur, self.recipe)
         self.W0 = open_walk(self.cur, _nix().FileMode.ReadOnly)
-        d = walk.diff(model, project(self.W0))
+        d = walk.diff(expect_model(self.recipe, placeholder=True), project(self.W0))
         if d:
             # not C18's subject (creation through the API); reported so that it cannot hide, case skipped
             self.viol("build/" + model_diff_key(self.recipe, d),
@@ -627,7 +657,8 @@ class FileCase:
                 if dm:
                     self.viol("old-read/" + model_diff_key(self.recipe, dm),
                               {"path": dm[0], "recipe": walk.brief(dm[1]), "old file reads": walk.brief(dm[2])})
-                d = None if dm else walk.diff(norm(self.W0, self.keep_id, True), norm(Wold, self.keep_id, True))
+                d = None if dm else walk.diff(mask_store(norm(self.W0, self.keep_id, True), self.recipe),
+                                              mask_store(norm(Wold, self.keep_id, True), self.recipe))
                 if d:
                     self.viol("old-read/walk" + keyify(d[0]),
                               {"path": d[0], "current-format": walk.brief(d[1]), "old file reads": walk.brief(d[2])})
@@ -740,6 +771,26 @@ class FileCase:
         B = norm(W, self.keep_id)
         secsA = section_nodes(A)
         secsB = section_nodes(B)
+        if old_style:
+            # an old property held in another integer width than this library writes: the never-downgraded file is
+            # no reference for its element type (and cannot hold values beyond int64 at all) - the upgraded
+            # property must have an integer type that holds the recipe's values (compared by the model above)
+            for spath, s in iter_sections(self.recipe):
+                for p in s.get("props", []):
+                    if p.get("store") and p["store"] != "<i8":
+                        sp = "/".join(spath)
+                        nb = secsB.get(sp, {}).get("props")
+                        if isinstance(nb, dict) and p["name"] in nb:
+                            dtb = str(nb[p["name"]].get("data_type"))
+                            if not re.match(r"^u?int(8|16|32|64)$", dtb):
+                                self.viol("%s/stored-integer-width/data_type-after-upgrade" % sub,
+                                          {"section": sp, "prop": p["name"], "stored as": p["store"], "data_type": dtb}, case)
+                            nb[p["name"]]["data_type"] = None
+                            nb[p["name"]]["values"] = None
+                        na = secsA.get(sp, {}).get("props")
+                        if isinstance(na, dict) and p["name"] in na:
+                            na[p["name"]]["data_type"] = None
+                            na[p["name"]]["values"] = None
         for (sp, cname), (vals, p, extra) in sorted(cand.items()):
             props = secsB.get(sp, {}).get("props")
             if not isinstance(props, dict) or p["name"] not in props:
@@ -855,6 +906,8 @@ def file_classes(fc):
     for _, p in fc.props:
         ex = prop_extras(p)
         cl.append("prop:%s:%s" % (p["vt"], "empty" if not p["vals"] else ("1" if len(p["vals"]) == 1 else "n")))
+        if p.get("store"):
+            cl.append("old-prop-stored-as:" + p["store"] + (":beyond-int64" if any(v >= 2 ** 63 for v in p["vals"]) else ""))
         cl.append("unc:" + unc_mode(ex["uncertainty"]))
         for e in EXTRAS:
             if any(ex[e]):
@@ -934,12 +987,18 @@ STRS = st.one_of(st.just(""), st.text(alphabet=gen.NAME_ALPHA, max_size=10),
 
 @st.composite
 def prop_st(draw, name):
-    vt = draw(st.sampled_from(["int", "float", "str", "bool", "str", "float"]))
+    vt = draw(st.sampled_from(["int", "float", "str", "bool", "str", "float", "int"]))
     elem = {"int": INTS, "float": FLOATS, "str": STRS, "bool": st.booleans()}[vt]
     vals = draw(st.one_of(st.lists(elem, min_size=1, max_size=4), st.lists(elem, min_size=0, max_size=1),
                           st.lists(elem, min_size=2, max_size=6)))
     p = {"name": name, "vt": vt, "vals": vals,
          "unit": draw(st.sampled_from(UNITS)), "def": draw(st.one_of(st.none(), TEXT))}
+    if vt == "int" and draw(st.integers(0, 1)) == 0:
+        # the old file holds the values in another integer type than this library would choose
+        p["store"] = draw(st.sampled_from(sorted(STORE_INT) + ["<u8", "<u8"]))
+        lo, hi = STORE_INT[p["store"]]
+        p["vals"] = draw(st.lists(st.one_of(st.sampled_from([lo, hi, 0, hi - 1, (hi + 1) // 2]), st.integers(lo, hi)),
+                                  min_size=1, max_size=4))
     if p["unit"] is not None and draw(st.integers(0, 3)) == 0:
         p["raw_unit"] = draw(st.sampled_from(RAW_UNITS))
     um = draw(st.sampled_from(["zero", "zero", "common", "distinct", "distinct2", "close"]))
@@ -1035,6 +1094,12 @@ def file_case_st(draw):
             "id": draw(st.sampled_from(["remove", "keep", "invalid"]))}
     if down["id"] == "invalid":
         down["badid"] = draw(st.sampled_from(["", "not-a-uuid", "1234", "ü"]))
+    if tuple(down["ver"]) >= (1, 1, 1):
+        # properties stay in the current layout in such a file: no other storage width to speak of
+        for _, s_ in iter_sections(recipe):
+            for p in s_.get("props", []):
+                if p.pop("store", None):
+                    p["vals"] = [max(-2 ** 63, min(2 ** 63 - 1, v)) for v in p["vals"]]
     return {"recipe": recipe, "down": down}
 
 
@@ -1095,8 +1160,14 @@ def _valid(case):
                 for v in p["vals"]:
                     if not isinstance(v, ty) or (p["vt"] != "bool" and isinstance(v, bool)):
                         return False
-                    if p["vt"] == "int" and not -2 ** 63 <= v < 2 ** 63:
-                        return False
+                    if p["vt"] == "int":
+                        if p.get("store") is not None and p["store"] not in STORE_INT:
+                            return False
+                        lo, hi = store_range(p)
+                        if not lo <= v <= hi:
+                            return False
+                        if v >= 2 ** 63 and tuple(case["down"]["ver"]) >= (1, 1, 1):
+                            return False        # not an old property in such a file: the API cannot hold the value
                     if p["vt"] == "float" and (v != v or v in (float("inf"), float("-inf"))):
                         return False
                     if p["vt"] == "str" and "\x00" in v:
